@@ -119,7 +119,7 @@ func run(c *engine.Ctx) {
 	initCaps := []int{0, 2, 5, 8}
 	// depth and number of parts of the HashMapOfValue search per initial capacity
 	mapDepth := func(ic int) (depth, parts int) {
-		if ic == 8 { // quick tier: capacity 8 is what a 5-slot table grows into; its own search is one level shallower
+		if ic == 2 || ic == 8 { // quick tier: full depth for the capacities tables really start from (0 -> 5, and 5); one level less for 2 and 8
 			return 4, 2
 		}
 		return 5, 8
@@ -208,7 +208,7 @@ func main() {
 			"specialised NativeHashMap / NativeKeyHashMap / NativeHashRecord / NativeKeyHashRecord / NativeHashSet variants; successor = replay of the shortest history on a fresh object + one operation " +
 			"out of {set(k,v) v in 1..2, delete(k), set_capacity(length|length+1), grow(1), copy_into / copy_table from 3 fixed maps, self=self+F, self=clone; sets: add, remove, union, intersection}; " +
 			"keys: 3 small Ints with equal hash residues modulo every capacity 1..15, a 4th such Int and a big Int only in the fixed argument maps, an Int whose home slot is adjacent, a String (reference keys are rebuilt on every use: equal under ==, distinct objects); " +
-			"states merged on the full slot array + Elements + OccupiedSlots + capacity; depth 5 (thorough: 6 for sets and for maps of initial capacity 0 and 5), each search split into 8 (sets 2; thorough up to 16 and 4) cases by the first operation; after every transition: counters vs slot array, every lookup/contains variant for every key, " +
+			"states merged on the full slot array + Elements + OccupiedSlots + capacity; depth 5 (quick: 4 for maps of initial capacity 2 and 8; thorough: 6 for sets and for maps of initial capacity 0 and 5), each search split into 8 (sets 2; thorough up to 16 and 4) cases by the first operation; after every transition: counters vs slot array, every lookup/contains variant for every key, " +
 			"4 iteration APIs, == / =~ with 3 equal twins and 4 different twins in both directions, + / | / & with every fixed argument in both operand orders (also against the other implementations), clone, copy, " +
 			"and non-mutation by observers, all against a Go map. Elk level: every sequence of <= 3 (thorough 4) operations ([]=, + map literal, + record literal; sets: <<, push, append, remove, |, +, & as observer) " +
 			"on 2 initial literals of 7 collection flavours (Int keys -> generic tables, String keys -> native variants), observed after every step with length, [], contains_key, contains, contains_value, iteration count+fingerprint, ==. " +
